@@ -3,7 +3,7 @@ Theorems over F3.Store (model of certstore.go) refined to F3.Store.Spec; h_store
 through random histories (all ops incl. rejected puts, reopen anywhere, lowered and real checkpoint
 period) and the driver compares every answer with the model (diff) and with the spec (oracle)."""
 
-NONTRIVIAL = r"^(put|get|range|pt|latest|obs|open|create|ooc|recv|sub|delall|robs) "
+NONTRIVIAL = r"^(put|get|range|pt|latest|obs|open|create|ooc|recv|sub|delall|robs|conc) "
 
 
 def search(ctx):
@@ -24,6 +24,8 @@ def run(ctx):
         for d in (1, 2):
             ctx.correspond("h_store", "Store", args=("c09",), tag="c09-s%d" % d, seed=ctx.seed + 7919 * d,
                            nontrivial=NONTRIVIAL, env={"VERIF_STORE_HIST": "250"})
+        # concurrent readers / subscriber beside the writer, under the race detector
+        ctx.correspond("h_store", "Store", args=("conc",), tag="c09-race", nontrivial=NONTRIVIAL, race=True)
     return ctx.finish(
         rule="h_store c09: one line = one call of the real certstore API (create/openOrCreate/open/put/get/getRange/"
              "latest/getPowerTable/subscribe/recv/deleteAll) or one full observation (obs: latest + every certificate + "
@@ -40,6 +42,8 @@ def run(ctx):
                      "concurrent readers/writers: model is sequential (one lock-protected section per op); goroutine "
                      "interleavings are not exhibited (partial)"],
         search=search,
-        partial=["subscriber_never_blocks is about the sequential channel model; goroutine-level non-blocking is runtime behaviour"],
+        partial=["subscriber_never_blocks is about the sequential channel model; goroutine-level behaviour (atomicity of the "
+                 "lock-protected sections, non-blocking under real scheduling) is exercised by the concurrent phase "
+                 "(`conc` lines; thorough: under -race) but not proved"],
         extra_cov={"frequencies": "2,3,5,7 via accessor + real 1440 crossing a boundary"},
     )
